@@ -597,8 +597,10 @@ class MetaClass(object):
             else:
                 referential_attributes[name] = value
             
-        # set all named arguments
+        # set all named arguments (attribute names are case insensitive)
+        declared_names = dict((name.upper(), name) for name, _ in self.attributes)
         for name, value in kwargs.items():
+            name = declared_names.get(name.upper(), name)
             if name not in self.referential_attributes:
                 setattr(inst, name, value)
             else:
